@@ -132,6 +132,26 @@ def Edit.Effect (f : List Nat) (m m' : WMol) : Edit → Prop
   | .atomTypeModify i r c => ∃ x a, f[i]? = some x ∧ m.atoms[x]? = some a ∧
       m'.atoms[x]? = some { a with radicals := r, charge := c } ∧ AtomsSameExcept m m' x ∧ m'.bonds = m.bonds
 
+/-! ## Applicability -/
+
+/-- **When an edit can be applied** (`f` the index map, `m` the molecule at that point): the labels are mapped to
+atoms of the molecule and the named bond / atom is in the state the operator needs. -/
+def Edit.Pre (f : List Nat) (m : WMol) : Edit → Prop
+  | .bondForm i j _ => ∃ x y, f[i]? = some x ∧ f[j]? = some y ∧ x < m.natoms ∧ y < m.natoms ∧ x ≠ y ∧ m.kindBetween x y = none
+  | .bondBreak i j old => ∃ x y, f[i]? = some x ∧ f[j]? = some y ∧ x < m.natoms ∧ y < m.natoms ∧ m.kindBetween x y = some old
+  | .bondModify i j _ old => ∃ x y, f[i]? = some x ∧ f[j]? = some y ∧ x < m.natoms ∧ y < m.natoms ∧ m.kindBetween x y = some old
+  | .bondIncrease i j => ∃ x y k k', f[i]? = some x ∧ f[j]? = some y ∧ x < m.natoms ∧ y < m.natoms ∧
+      m.kindBetween x y = some k ∧ ladderUp k = .ok k'
+  | .bondDecrease i j => ∃ x y k r, f[i]? = some x ∧ f[j]? = some y ∧ x < m.natoms ∧ y < m.natoms ∧
+      m.kindBetween x y = some k ∧ ladderDown k = .ok r
+  | .radicalModify i _ old => ∃ x a, f[i]? = some x ∧ m.atoms[x]? = some a ∧ a.radicals = old
+  | .radicalIncrease i => ∃ x, f[i]? = some x ∧ x < m.natoms
+  | .radicalDecrease i => ∃ x a, f[i]? = some x ∧ m.atoms[x]? = some a ∧ 0 < a.radicals
+  | .chargeIncrease i => ∃ x, f[i]? = some x ∧ x < m.natoms
+  | .chargeDecrease i => ∃ x, f[i]? = some x ∧ x < m.natoms
+  | .atomTypeModify i _ _ => ∃ x, f[i]? = some x ∧ x < m.natoms
+
+
 /-! ## Connectedness -/
 
 /-- `a` and `b` are joined by a bond of `p` -/
